@@ -219,6 +219,15 @@ def check_all_str(F, s, ev, with_template=False, dedupe=True):
             if nt:
                 ev.distinct_extra += 1
 
+    # a history, not only a call: the same text was escaped before as a trusted markupsafe.Markup value (which h passes
+    # through by design); what h answers for the plain string afterwards must not depend on that
+    try:
+        import markupsafe
+
+        F.html_escape(markupsafe.Markup(s))
+        F.xml_escape(markupsafe.Markup(s))
+    except Exception:  # noqa: BLE001 - only the plain-string calls below are judged
+        pass
     rec("h", check_hx("h", F.html_escape, s))
     rec("x", check_hx("x", F.xml_escape, s))
     rec("u", check_u(F.url_escape, s))
@@ -361,6 +370,77 @@ def shard_random(task):
     return ev, fails + f2
 
 
+# ---- target charsets that are not stateless ASCII supersets: stateful ISO-2022 / HZ, EBCDIC, UTF-16 -------------------
+EXTRA_CHARSETS = ["iso2022_jp", "iso2022_kr", "hz", "cp037", "cp500", "utf-16", "utf-16-le", "utf-32"]
+EXTRA_ALPHA = ["日", "本", "한", "é", "€", "я", "a", "<", "&", ";", "\U0001f600"]
+
+
+def check_handler_text(s, cs, out, via):
+    """oracle for charsets whose bytes are not a per-character concatenation: the output decodes in that charset to the
+    input with each unencodable character replaced by a reference that decodes back to it"""
+    name = "htmlentityreplace/%s/%s" % (cs, via)
+    if not isinstance(out, bytes):
+        raise fail(name, s, "result is %r, not bytes" % type(out), "handler:type")
+    try:
+        text = out.decode(cs)
+    except Exception as e:
+        raise fail(name, s, "output %r does not decode as %s: %r" % (out, cs, e), "handler:output-undecodable")
+    pos = 0
+    nontrivial = False
+    for c in s:
+        try:
+            ok = c.encode(cs).decode(cs) == c
+        except UnicodeError:
+            ok = False
+        if ok:
+            if text[pos:pos + 1] != c:
+                raise fail(name, s, "decoded output %r: expected %r at %d" % (text, c, pos), "handler:wrong-text")
+            pos += 1
+        else:
+            nontrivial = True
+            m = REF.match(text, pos)
+            if not m or decode_ref(m.group(0)) != c:
+                raise fail(name, s, "decoded output %r: expected a reference to %r at %d" % (text, c, pos), "handler:no-reference")
+            pos = m.end()
+    if pos != len(text):
+        raise fail(name, s, "decoded output %r has trailing text %r" % (text, text[pos:]), "handler:trailing")
+    return nontrivial
+
+
+def shard_extra_charsets(task):
+    cs, n = task
+    core.setup_repo()
+    from mako.template import Template
+
+    _filters()  # registers the error handler
+    ev = core.Evidence()
+    fails = {}
+    t = Template("${v}", output_encoding=cs, encoding_errors="htmlentityreplace", default_filters=[])
+    for k in range(1, n + 1):
+        for i, tup in enumerate(itertools.product(EXTRA_ALPHA, repeat=k)):
+            s = "".join(tup)
+            try:
+                try:
+                    out = s.encode(cs, "htmlentityreplace")
+                except Exception as e:
+                    raise fail("htmlentityreplace/%s/encode" % cs, s, "raised %r" % e, "handler:raised")
+                nt = check_handler_text(s, cs, out, "encode")
+                if i % 5 == 0:
+                    try:
+                        out2 = t.render(v=s)
+                    except Exception as e:
+                        raise fail("htmlentityreplace/%s/template" % cs, s, "raised %r" % e, "handler:raised")
+                    check_handler_text(s, cs, out2, "template")
+                ev.evaluations += 1
+                ev.labels["handler-text/" + cs] += 1
+                if nt:
+                    ev.distinct_extra += 1
+            except Failure as f:
+                fails.setdefault(f.key, f)
+    ev.sample({"filter": "htmlentityreplace", "charset": cs, "input": "日本é"}, "extra-" + cs)
+    return ev, list(fails.values())
+
+
 def run(ctx):
     ev = ctx.ev
     # (1) code points
@@ -375,6 +455,7 @@ def run(ctx):
     # (2) all strings len<=3 over ALPHA
     ctx.pmap(shard_short_strings, [(1, 0, 1), (2, 0, 1)] + [(3, i, 8) for i in range(8)])
     ctx.pmap(shard_long_strings, [0])
+    ctx.pmap(shard_extra_charsets, [(cs, ctx.pick(3, 4)) for cs in EXTRA_CHARSETS])
     # (3) random
     n = ctx.pick(400, 6000)
     ctx.pmap(shard_random, [(ctx.shard_seed(i), n) for i in range(ctx.pick(4, 16))])
@@ -433,6 +514,15 @@ def replay(case):
     filt = case["filter"]
     try:
         if filt.startswith("decode."):
+            return None
+        parts = filt.split("/")
+        if parts[0] == "htmlentityreplace" and len(parts) == 3 and parts[1] in EXTRA_CHARSETS:
+            from mako.template import Template
+
+            cs = parts[1]
+            check_handler_text(s, cs, s.encode(cs, "htmlentityreplace"), "encode")
+            t = Template("${v}", output_encoding=cs, encoding_errors="htmlentityreplace", default_filters=[])
+            check_handler_text(s, cs, t.render(v=s), "template")
             return None
         check_all_str(F, s, ev, with_template=True)
     except Failure as f:
